@@ -1583,8 +1583,10 @@ func (t *Tokenizer) readPunctuation() (models.Token, error) {
 		if t.pos.Index < len(t.input) {
 			nextR, _ := utf8.DecodeRune(t.input[t.pos.Index:])
 			if nextR == '$' || isIdentifierStart(nextR) {
-				// Try to read the opening tag
+				// Try to read the opening tag. If it turns out not to be one, the
+				// text after the '$' is not part of this token: go back to it.
 				tagStart := t.pos.Index
+				afterDollar := t.pos
 				if nextR == '$' {
 					// $$ case - empty tag
 				} else {
@@ -1596,6 +1598,7 @@ func (t *Tokenizer) readPunctuation() (models.Token, error) {
 						}
 						if !isIdentifierChar(cr) {
 							// Not a valid tag, treat as standalone $
+							t.pos = afterDollar
 							return models.Token{Type: models.TokenTypePlaceholder, Value: "$"}, nil
 						}
 						t.pos.AdvanceRune(cr, cs)
@@ -1603,10 +1606,12 @@ func (t *Tokenizer) readPunctuation() (models.Token, error) {
 				}
 				// Check for closing $ of the tag
 				if t.pos.Index >= len(t.input) {
+					t.pos = afterDollar
 					return models.Token{Type: models.TokenTypePlaceholder, Value: "$"}, nil
 				}
 				closingR, closingSize := utf8.DecodeRune(t.input[t.pos.Index:])
 				if closingR != '$' {
+					t.pos = afterDollar
 					return models.Token{Type: models.TokenTypePlaceholder, Value: "$"}, nil
 				}
 				tag := string(t.input[tagStart:t.pos.Index])
